@@ -43,8 +43,19 @@ def _run(ctx):
     ncall = ncalls[0]
     nnode = cfg.node(q.stmt(ncall))
     hvar, tvar = ncall.args
-    if not (isinstance(hvar, ast.Name) and isinstance(tvar, ast.Name)):
-        raise AnalysisError('Notifications._maybe_notify: notify arguments are not plain locals')
+    if not isinstance(tvar, ast.Name):
+        raise AnalysisError('Notifications._maybe_notify: the notified set is not a plain local')
+    if not isinstance(hvar, ast.Name):
+        # the height handed to the sessions is not the local whose provenance is checked below: find that local through
+        # the mempool pop (the set taken is the one recorded at the agreed height) and report the call
+        ctx.bad('C20.HEIGHT', ctx.key(mn, q.stmt(ncall), 'notified height'),
+                f'the notification is sent for `{norm(hvar)}`, not for the height the two sources were found to agree on',
+                loc=ctx.loc(mn, ncall))
+        cands = [c.args[0] for c in q.own_calls(mn) if isinstance(c.func, ast.Attribute) and c.func.attr == 'pop'
+                 and ctx.res.canon(c.func.value, mn) == 'self._touched_mp' and len(c.args) == 1 and isinstance(c.args[0], ast.Name)]
+        if not cands:
+            return
+        hvar = cands[0]
 
     # ------------------------------------------------------------------ NODROP
     n_sites = 0
@@ -266,9 +277,12 @@ def _run(ctx):
                 recs.append(n)
         jn = fcfg.node(joins[0])
         p = pr.path_avoiding(fcfg, [fcfg.entry], [jn], {fcfg.node(r) for r in recs})
+        if p is None and recs:
+            # ... and no way out of the function skips the record (an early return drops the reported set)
+            p = pr.path_avoiding(fcfg, [fcfg.entry], [fcfg.exit], {fcfg.node(r) for r in recs})
         ctx.check(bool(recs) and p is None and awaited, 'C20.RECORD', ctx.key(f, joins[0], 'recorded first'),
                   f'the reported set is recorded under its height in {cont} before the join is attempted',
-                  f'the join can run without the reported set having been recorded in {cont} under its height',
+                  f'the join can run, or the function can return, without the reported set having been recorded in {cont} under its height',
                   witness=fcfg.describe_path(p) if p else None, loc=ctx.loc(f, joins[0]))
         n_r += 1
         marks = [s for s in q.assigns(ctx, f, 'self._highest_block')]
